@@ -38,6 +38,13 @@ func init() {
 		return o
 	}}
 	properties["T14"] = &propertyDef{Decides: "debug", Run: func(c *rules.Ctx) []report.Obligation { return c.IMMDerive("IMM") }}
+	properties["T19"] = &propertyDef{Decides: "debug", Run: func(c *rules.Ctx) []report.Obligation { return c.GLOB("GLOB") }}
+	properties["T13"] = &propertyDef{Decides: "debug", Run: func(c *rules.Ctx) []report.Obligation { o := append(c.R3("R3", "graph", "types"), c.FanOut("FAN")...)
+		o = append(o, c.TRV("TRV")...)
+		o = append(o, c.ROnly("RONLY", "graph", []string{"graph.walk"}, map[string]bool{"traversal.status": true, "traversal.results": true})...)
+		return o
+	}}
+	properties["T20"] = &propertyDef{Decides: "debug", Run: func(c *rules.Ctx) []report.Obligation { return c.SEC("SEC") }}
 	properties["C01"] = &propertyDef{
 		Decides:    "no unchecked type assertion on input-derived data in code reachable from the load entry points outside the proved / justified / known set (PANIC-TA)",
 		NotDecided: "termination, stack bounds, nil dereferences, panics inside dependencies",
